@@ -8,6 +8,22 @@ CLAIMED = {
          "Every schedule (quick: <=2 preemptions; thorough: unbounded, closed by trace pruning) of every small DAG layering x failing subset x fresh/used engine is executed on the real code and judged by a barrier / exactly-once / stop-after-failure oracle; a missing barrier shows up as an execution with the opposite event order.",
          "Trusted: the instrumenter's sync->shim and go->vsched.Go rewrites cover all of gengine's synchronisation (sync.Mutex/RWMutex/WaitGroup + go statements only); sequentially consistent memory; bounds: <=4 rules, <=3 layers, width<=3(4 thorough).",
          "DESIGN.md §2 C13"),
+ "C04": ("bounded-exhaustive enumeration of rule sets x failing subsets x policy x arrival histories, each executed on the real engine under the scheduler (single deterministic schedule) against a staged reference plan",
+         "All rule sets up to 4 (thorough 5) rules over a salience alphabet with ties/negatives/absent, every failing subset, both policies, three sorted entry points, every incremental insertion order and salience change; each is run on the real engine and compared with the reference plan (order, exactly-once, stop/continue, error iff failure, effect counters).",
+         "Sequential model: no interleaving involved. Trusted: reference plan in /verif/harness/ref/model.go; observer rules (ev/boom) as rule bodies. Bounds: <=5 rules, saliences from {-1,0,2,absent}.",
+         "DESIGN.md §2 C04"),
+ "C05": ("stateless DFS over all goroutine interleavings (preemption bound 2 quick / 3 thorough, HB-fingerprint pruning) of the real mix / inverse-mix / N-M model functions; staged barrier oracle on the global event log",
+         "Every schedule within the bound of ~1.8k (thorough ~9k) configurations (model x size x salience pattern x failing subset x N,M x policy) is run on the real code; the oracle demands the stage barrier, exactly-once, sorted-stage order, stop/continue policy, window membership and error-iff-failure, accepting any order among equal saliences.",
+         "Trusted: instrumenter rewrites cover all synchronisation; sequentially consistent memory; bounds: <=5 rules, N,M<=2, <=2 failing rules, preemption bound 2/3.",
+         "DESIGN.md §2 C05"),
+ "C12": ("bounded-exhaustive enumeration of all name lists (length 0-4 over 4 rules + unknown, all permutations) x 11 selected variants x policy x N,M; concurrent variants explored over all schedules with <=1 (thorough 2) preemptions; staged reference plan",
+         "Every selected variant is run on the real engine for every name list, and judged against the reference plan built from exactly the named existing rules (sorted vs as-given order, unknown names skipped, must-fail-without-running cases).",
+         "Name lists without repeats; ties straddling a selected N-M window boundary are not judged (left open by the statement). Bounds: 4 rules, lists <=4.",
+         "DESIGN.md §2 C12"),
+ "C14": ("bounded-exhaustive enumeration of setter position x failing subsets x policy for the 4 stop-tag variants; mix variant under all schedules with <=2 (thorough 3) preemptions; reference plan with tag semantics + differential run of the tag-free twin",
+         "Every position of the tag-setting rule (or none), every failing subset <=2, both policies, 1-4 rules, three salience patterns; when the tag is never set the tag-free twin is run on the same input and must agree.",
+         "Bounds: <=4 rules; pool wrappers of the stop-tag variants are exercised by the pool checks.",
+         "DESIGN.md §2 C14"),
 }
 NA_REASON = "check not built yet in this round (design in DESIGN.md §2); will be claimed once its check passes on the pinned tree"
 def main():
